@@ -263,17 +263,29 @@ public:
     /**
      * @return If this cache is currenty empty.
      */
-    auto empty() const -> bool { return (m_used_size == 0); }
+    auto empty() const -> bool
+    {
+        std::lock_guard guard{m_lock};
+        return (m_used_size == 0);
+    }
 
     /**
      * @return The number of elements in the cache, this does not prune expired elements.
      */
-    auto size() const -> size_t { return m_used_size; }
+    auto size() const -> size_t
+    {
+        std::lock_guard guard{m_lock};
+        return m_used_size;
+    }
 
     /**
      * @return The maximum capacity of this cache.
      */
-    auto capacity() const -> size_t { return m_fifo_list.size(); }
+    auto capacity() const -> size_t
+    {
+        std::lock_guard guard{m_lock};
+        return m_fifo_list.size();
+    }
 
 private:
     struct element
@@ -374,7 +386,7 @@ private:
     }
 
     /// Cache lock for all mutations if thread_safe is enabled.
-    mutex<thread_safe_type> m_lock;
+    mutable mutex<thread_safe_type> m_lock;
 
     /// The current number of elements in the cache.
     size_t m_used_size{0};
